@@ -1,0 +1,33 @@
+//go:build verif
+
+package protocol
+
+// Verification hooks for the receive-buffer accounting (pendingRecvBytes /
+// pendingRecvSizes). Compiled only with the `verif` build tag.
+
+const verifSegEnabled = true
+
+// VerifSegTrace, when non-nil, is called (with pendingBytesMu held, so events
+// are ordered like the state changes) at every accounting event of readLoop /
+// recvLoop:
+//
+//	"acc"  message accepted:  size, pendingRecvBytes after, limit of the state read at accept
+//	"wait" accept postponed:  size, pendingRecvBytes,       limit (back-pressure)
+//	"rel"  message released:  size popped, pendingRecvBytes after, 0
+//
+// It must be set before any Protocol is started and must not call back into
+// the Protocol.
+var VerifSegTrace func(p *Protocol, kind string, size, pending, limit int)
+
+func verifSegTrace(p *Protocol, kind string, size, pending, limit int) {
+	if f := VerifSegTrace; f != nil {
+		f(p, kind, size, pending, limit)
+	}
+}
+
+// VerifSegPendingRecv returns pendingRecvBytes and a copy of pendingRecvSizes.
+func (p *Protocol) VerifSegPendingRecv() (int, []int) {
+	p.pendingBytesMu.Lock()
+	defer p.pendingBytesMu.Unlock()
+	return p.pendingRecvBytes, append([]int(nil), p.pendingRecvSizes...)
+}
